@@ -108,8 +108,56 @@ static std::string observable_vector(JsonDocument& doc) {
   return out;
 }
 
+// very many users of one copied string: sharing stays invisible whatever the number of sharers
+// (counts of 2^8 and 2^16 users are where a narrow counter would wrap)
+static void many_sharers(cs::Src& s, cs::Ctx& ctx) {
+  static const size_t N[] = {254, 255, 256, 257, 258, 65534, 65535, 65536, 65537, 65538};
+  size_t n = N[s.below(10)];
+  if (n >= (size_t)ArduinoJson::detail::NULL_SLOT) n = (size_t)ArduinoJson::detail::NULL_SLOT - 2;  // slot ids of this geometry
+  std::string text = s.coin() ? "shared text" : std::string("sh\0ared", 8);
+  lib::Ledger ledger;
+  {
+    JsonDocument doc(&ledger);
+    JsonArray a = doc.to<JsonArray>();
+    for (size_t i = 0; i < n; i++)
+      if (!a.add(text)) ctx.fail("many-sharers", "add() of user " + std::to_string(i) + " failed");
+    ctx.current_rendering = "many sharers: " + std::to_string(n) + " users of " + cs::quote_bytes(text);
+    // one user goes away / is overwritten / is re-assigned the same text
+    size_t k = (size_t)s.below(3);
+    if (k == 0) a.remove((size_t)0);
+    else if (k == 1) a[0] = 42;
+    else a[0] = text;
+    size_t expect_users = k == 2 ? n : n - 1;
+    size_t seen = 0;
+    for (JsonVariantConst e : a) {
+      if (!e.is<JsonString>()) continue;
+      JsonString js = e.as<JsonString>();
+      if (std::string(js.c_str(), js.size()) != text) ctx.fail("sharing-visible", "after one of " + std::to_string(n) + " users of a string changed, another user reads " + cs::quote_bytes(std::string(js.c_str(), js.size())));
+      seen++;
+    }
+    if (seen != expect_users) ctx.fail("sharing-visible", "users left: " + std::to_string(seen) + ", expected " + std::to_string(expect_users));
+    // the others can still be changed one by one and the last one releases the text
+    a.remove((size_t)1);
+    a.add(std::string("another"));
+    std::string out;
+    serializeMsgPack(doc, out);
+    lib::Inspector::Report rep = lib::Inspector::inspect(doc, false, false, true);
+    if (!rep.error.empty()) ctx.fail("internal-invariant", "many sharers: " + rep.error);
+    doc.clear();
+    if (ledger.live_blocks() != 0) ctx.fail("leak-after-clear", "many sharers: blocks live after clear()");
+  }
+  if (!ledger.error.empty()) ctx.fail("allocator-discipline", ledger.error);
+  ctx.executions += n;
+  ctx.label("many-sharers-of-one-string");
+  ctx.nontrivial(cs::hash_u64(n, cs::hash_str(text)));
+}
+
 static void run_case(cs::Src& s, cs::Ctx& ctx) {
   ctx.evaluations++;
+  if (s.below(600) == 1) {
+    many_sharers(s, ctx);
+    return;
+  }
   hist::Options o = base_options(ctx);
   o.ndocs = 2;
   o.string_ops_only = true;
